@@ -73,6 +73,8 @@ def gen_call(rng, P, mod, depth, scope, ids, ctor=None, width=None):
     if ctor == "loop":
         call["list"] = pick(usable, 0, 3)
         call["M"] = rng.choice(["top", "const3", "const0", "none"])
+        if call["M"] == "none" and not call["list"]:
+            call["M"] = "const3"  # (a Loop without trip count and without inputs would be evaluated forever by value propagation)
         call["cond"] = rng.choice([None, None, "constTrue", "constFalse"]) if call["M"] != "none" else "constTrue"
     elif ctor == "scan":
         first = rng.choice(scannable)
